@@ -1,4 +1,4 @@
-"""Real-code side of the model disagreements recorded in coq/Props/Glue.v (docs/Glue.md).
+"""Real-code side of the (former) model disagreements recorded in coq/Props/Glue.v (docs/Glue.md); set PYTHONPATH to a patched copy to see the repaired behaviour.
 Run:  cd <project> && PYTHONPATH=/repo/src:harness PYTHONHASHSEED=0 /venv/bin/python -W ignore harness/glue_probe.py
 Prints what the LIBRARY does on the distinguishing input of each witness theorem; nothing is asserted."""
 import logging
@@ -30,7 +30,7 @@ def run(f):
 
 
 # 1. Glue_md_certs_disagreement_witness: signing KeyDescriptor with a certificate + signing KeyDescriptor with a KeyName only
-show("1. KeyDescriptor without X509Data (MdStore: KeyError; CertSelect: descriptor skipped)")
+show("1. KeyDescriptor without X509Data (unpatched library = the _before_fix models: KeyError / MissingKey / embedded key accepted; with proposed_fix/C03-1 = MdStore and CertSelect: descriptor skipped)")
 s = c03.idp_md(IDP_ID, [("signing", ["idp"]), ("signing", ["other"])])
 ed = md.entity_descriptor_from_string(s)
 kd = ed.idpsso_descriptor[0].key_descriptor[1]
